@@ -68,7 +68,7 @@ def harness():
 def base_attrs():
     return dict(model='clpt_donnell_bc1', alphadeg=real('alphadeg'), r2=real('r2'), H=real('H'), m1=2, m2=1, n2=1, s=integer('s'),
                 P=real('P'), T=real('T'), Fc=real('Fc'), pdC=False, stack=[real('th0')], plyt=real('plyt'), laminaprop=(real('E1'), real('E2')),
-                nx=integer('nx'), nt=integer('nt'))
+                nx=integer('nx'), nt=integer('nt'), thetaTdeg=real('thetaTdeg'), betadeg=real('betadeg'))
 
 
 CHANGES = {
@@ -78,6 +78,8 @@ CHANGES = {
     'plyt': ('plyt', real('plyt_new')),
     'P': ('P', real('P_new')),
     'H': ('H', real('H_new')),
+    'thetaTdeg': ('thetaTdeg', real('thetaTdeg_new')),
+    'betadeg': ('betadeg', real('betadeg_new')),
 }
 
 
@@ -145,9 +147,9 @@ def replay_change(op, ch):
         return _RP[key]
     from .. import pyreplay, shell_oracle as O
     script = O.COMMON + """
-new = {'r2': 500., 'alphadeg': 30., 'Fc': 2000., 'plyt': 0.25, 'P': 0.2, 'H': 800.}[payload['ch']]
+new = {'r2': 500., 'alphadeg': 30., 'Fc': 2000., 'plyt': 0.25, 'P': 0.2, 'H': 800., 'thetaTdeg': 1.1, 'betadeg': 0.7}[payload['ch']]
 def fresh(changed):
-    cc = make(payload); cc.pdC = False; cc.pdT = True; cc.nx = 16; cc.nt = 16; cc.Fc = 1000.; cc.P = 0.05
+    cc = make(payload); cc.pdC = False; cc.pdT = True; cc.nx = 16; cc.nt = 16; cc.Fc = 1000.; cc.P = 0.05; cc.thetaTdeg = 0.4; cc.betadeg = 0.2
     cc.add_force(100., 30., 1., 2., 3.)
     if changed:
         setattr(cc, payload['ch'], new)
